@@ -73,10 +73,13 @@ func (r *ConsecutiveBlankLinesRule) Check(ctx *linter.Context) ([]linter.Violati
 	consecutiveCount := 0
 	startLine := 0
 
+	m := linter.LexMap(strings.Join(ctx.Lines, "\n"))
+	off := 0
 	for lineNum, line := range ctx.Lines {
-		trimmed := strings.TrimSpace(line)
+		blank := isBlankCodeLine(line, m, off)
+		off += len(line) + 1
 
-		if trimmed == "" {
+		if blank {
 			if consecutiveCount == 0 {
 				startLine = lineNum + 1 // 1-indexed
 			}
@@ -136,26 +139,32 @@ func (r *ConsecutiveBlankLinesRule) Check(ctx *linter.Context) ([]linter.Violati
 func (r *ConsecutiveBlankLinesRule) Fix(content string, violations []linter.Violation) (string, error) {
 	lines := strings.Split(content, "\n")
 	result := make([]string, 0, len(lines))
+	resultBlank := make([]bool, 0, len(lines)) // resultBlank[i]: result[i] is a blank line of code
 
+	m := linter.LexMap(content)
+	off := 0
 	consecutiveCount := 0
 	for _, line := range lines {
-		trimmed := strings.TrimSpace(line)
+		blank := isBlankCodeLine(line, m, off)
+		off += len(line) + 1
 
-		if trimmed == "" {
+		if blank {
 			consecutiveCount++
 			if consecutiveCount <= r.maxConsecutive {
 				result = append(result, line)
+				resultBlank = append(resultBlank, true)
 			}
 		} else {
 			consecutiveCount = 0
 			result = append(result, line)
+			resultBlank = append(resultBlank, false)
 		}
 	}
 
 	// Trim trailing blank lines at end of file to at most maxConsecutive
-	for len(result) > 0 && strings.TrimSpace(result[len(result)-1]) == "" {
+	for len(result) > 0 && resultBlank[len(result)-1] {
 		blankCount := 0
-		for i := len(result) - 1; i >= 0 && strings.TrimSpace(result[i]) == ""; i-- {
+		for i := len(result) - 1; i >= 0 && resultBlank[i]; i-- {
 			blankCount++
 		}
 		if blankCount > r.maxConsecutive {
@@ -166,4 +175,12 @@ func (r *ConsecutiveBlankLinesRule) Fix(content string, violations []linter.Viol
 	}
 
 	return strings.Join(result, "\n"), nil
+}
+
+// isBlankCodeLine reports whether the line that begins at offset off of the text
+// classified by m is a blank line of code: it holds white space only and does not lie
+// inside a multi-line string literal, quoted identifier or block comment (a blank line
+// there is content of that construct, not layout).
+func isBlankCodeLine(line string, m []linter.LexClass, off int) bool {
+	return linter.LineStartsInCode(m, off) && strings.TrimSpace(line) == ""
 }
